@@ -58,7 +58,11 @@ impl C13 {
         };
         // array sweep: len 0..=6, index -(len+2)..=len+2
         let arr_cells: u64 = (0..=6u64).map(|l| 2 * (l + 2) + 1).sum();
-        let str_cells: u64 = self.strings.iter().map(|s| 2 * (s.chars().count() as u64 + 2) + 1).sum();
+        let mut str_cells: u64 = self.strings.iter().map(|s| 2 * (s.chars().count() as u64 + 2) + 1).sum();
+        if ctx.flavour == Flavour::Miri {
+            // interpreted: the strings of up to three characters (every width pattern) are enough
+            str_cells = str_cells.min(700);
+        }
         Families::new(vec![
             ("array-index-sweep", arr_cells),
             ("string-index-sweep", str_cells),
